@@ -34,6 +34,41 @@ type mergeCase struct {
 	Batch   int     `json:"batch"`  // vectorized batch size
 	Desc    bool    `json:"desc"`   // order_by time desc
 	Merge   bool    `json:"merge"`  // marks the artefact for --replay
+	// round 2: nullable field. When FieldType != "" every node entry is [contested, second, before, after] and the
+	// field of a data point is null or valued as a function of (series, instant, version) — see mergeFieldNull.
+	FieldType string `json:"field_type,omitempty"` // int | float | str
+}
+
+// mergeFieldNull: which data points of the nullable-field universe carry a NULL field value. Null-ness is a function
+// of the data point's identity (series, instant, version), never of the node: replicas at the same version are
+// identical, so the merged answer is well defined.
+func mergeFieldNull(sid uint64, tsMs, ver int64) bool {
+	switch {
+	case tsMs == 1000: // "before" point
+		return false
+	case tsMs == 3000: // "after" point
+		return true
+	case sid == 7: // contested point: v1 null, v2 valued, v3 null
+		return ver != 2
+	default: // second series at the contested instant: v1 null, v2 valued
+		return ver != 2
+	}
+}
+
+func mergeFieldValue(ftype string, sid uint64, tsMs, ver int64) *modelv1.FieldValue {
+	if ftype == "" {
+		return e2e.FI(ver*100 + int64(sid))
+	}
+	if mergeFieldNull(sid, tsMs, ver) {
+		return e2e.FNull()
+	}
+	switch ftype {
+	case "float":
+		return e2e.FF(float64(ver*100+int64(sid)) + 0.5)
+	case "str":
+		return e2e.FS(fmt.Sprintf("s%d-%d", ver, sid))
+	}
+	return e2e.FI(ver*100 + int64(sid))
 }
 
 type sliceMIterator struct {
@@ -55,19 +90,26 @@ func (s *sliceMIterator) Current() []*measurev1.InternalDataPoint {
 
 func (s *sliceMIterator) Close() error { return nil }
 
-func mergeMeasureSchema() *databasev1.Measure {
+func mergeMeasureSchema(ftype string) *databasev1.Measure {
+	ft := databasev1.FieldType_FIELD_TYPE_INT
+	switch ftype {
+	case "float":
+		ft = databasev1.FieldType_FIELD_TYPE_FLOAT
+	case "str":
+		ft = databasev1.FieldType_FIELD_TYPE_STRING
+	}
 	return &databasev1.Measure{
 		Metadata: &commonv1.Metadata{Group: "g", Name: "m"},
 		TagFamilies: []*databasev1.TagFamilySpec{{Name: "default", Tags: []*databasev1.TagSpec{
 			{Name: "svc", Type: databasev1.TagType_TAG_TYPE_STRING}, {Name: "region", Type: databasev1.TagType_TAG_TYPE_STRING},
 		}}},
-		Fields: []*databasev1.FieldSpec{{Name: "vi", FieldType: databasev1.FieldType_FIELD_TYPE_INT,
+		Fields: []*databasev1.FieldSpec{{Name: "vi", FieldType: ft,
 			EncodingMethod: databasev1.EncodingMethod_ENCODING_METHOD_GORILLA, CompressionMethod: databasev1.CompressionMethod_COMPRESSION_METHOD_ZSTD}},
 		Entity: &databasev1.Entity{TagNames: []string{"svc"}},
 	}
 }
 
-func mergeIDP(sid uint64, svc string, tsMs int64, ver int64, shard uint32) *measurev1.InternalDataPoint {
+func mergeIDP(ftype string, sid uint64, svc string, tsMs int64, ver int64, shard uint32) *measurev1.InternalDataPoint {
 	region := e2e.Str(fmt.Sprintf("r%d", ver))
 	if ver == 2 {
 		region = e2e.Null()
@@ -75,23 +117,34 @@ func mergeIDP(sid uint64, svc string, tsMs int64, ver int64, shard uint32) *meas
 	return &measurev1.InternalDataPoint{ShardId: shard, DataPoint: &measurev1.DataPoint{
 		Timestamp: timestamppb.New(e2e.Base().Add(timeMs(tsMs))), Sid: sid, Version: ver,
 		TagFamilies: []*modelv1.TagFamily{{Name: "default", Tags: []*modelv1.Tag{{Key: "svc", Value: e2e.Str(svc)}, {Key: "region", Value: region}}}},
-		Fields:      []*measurev1.DataPoint_Field{{Name: "vi", Value: e2e.FI(ver*100 + int64(sid))}},
+		Fields:      []*measurev1.DataPoint_Field{{Name: "vi", Value: mergeFieldValue(ftype, sid, tsMs, ver)}},
 	}}
 }
 
 // nodeRows: what one data node answers (already collapsed to one version per point, sorted by time in the requested
 // direction): a point before (every node), the contested point of series 7, the point of series 8 at the same
 // instant, a point after (first node only).
-func nodeRows(node int, assign []int, desc bool) []*measurev1.InternalDataPoint {
-	rows := []*measurev1.InternalDataPoint{mergeIDP(7, "a", 1000, 1, 0)}
+//
+// Nullable-field universe (ftype != ""): the "before" and "after" points are part of the per-node assignment too
+// (assign[2], assign[3] in {0 absent, 1 present}), so a node may answer with nothing, with only NULL-field rows
+// (its field column then stays a FieldValue passthrough column on the typed wire) or with a mix.
+func nodeRows(ftype string, node int, assign []int, desc bool) []*measurev1.InternalDataPoint {
+	before, after := true, node == 0
+	if ftype != "" {
+		before, after = assign[2] > 0, assign[3] > 0
+	}
+	var rows []*measurev1.InternalDataPoint
+	if before {
+		rows = append(rows, mergeIDP(ftype, 7, "a", 1000, 1, 0))
+	}
 	if assign[0] > 0 {
-		rows = append(rows, mergeIDP(7, "a", 2000, int64(assign[0]), 0))
+		rows = append(rows, mergeIDP(ftype, 7, "a", 2000, int64(assign[0]), 0))
 	}
 	if assign[1] > 0 {
-		rows = append(rows, mergeIDP(8, "b", 2000, int64(assign[1]), 1))
+		rows = append(rows, mergeIDP(ftype, 8, "b", 2000, int64(assign[1]), 1))
 	}
-	if node == 0 {
-		rows = append(rows, mergeIDP(8, "b", 3000, 1, 1))
+	if after {
+		rows = append(rows, mergeIDP(ftype, 8, "b", 3000, 1, 1))
 	}
 	if desc {
 		for i, j := 0, len(rows)-1; i < j; i, j = i+1, j-1 {
@@ -108,7 +161,7 @@ func mergeOne(mc mergeCase) (msg string, contested bool) {
 		}
 	}()
 	// nolint:staticcheck // the row path's schema builder
-	ls, err := logicalmeasure.BuildSchema(mergeMeasureSchema(), nil)
+	ls, err := logicalmeasure.BuildSchema(mergeMeasureSchema(mc.FieldType), nil)
 	if err != nil {
 		return "harness: BuildSchema: " + err.Error(), false
 	}
@@ -124,7 +177,7 @@ func mergeOne(mc mergeCase) (msg string, contested bool) {
 	var frames [][]byte
 	versions := map[int]bool{}
 	for n, a := range mc.Nodes {
-		rows := nodeRows(n, a, mc.Desc)
+		rows := nodeRows(mc.FieldType, n, a, mc.Desc)
 		if a[0] > 0 {
 			versions[a[0]] = true
 		}
@@ -247,8 +300,119 @@ func coordinatorMerge(r *ev.Run) {
 			}
 		})
 	}
+	t0 := time.Now()
+	nn, nbad, ndiv, nfirst := coordinatorMergeNullable(r)
+	fmt.Printf("C15: nullable-field merges took %.1fs (informational)\n", time.Since(t0).Seconds())
+	n += nn
+	bad += nbad
+	r.Set("coordinator_merges_nullable_field", nn)
+	r.Set("coordinator_merges_field_wire_type_differs_between_nodes", ndiv)
+	r.Set("coordinator_merges_typed_frame_before_all_null_frame", nfirst)
+	r.Set("coordinator_merge_nullable_bounds", "1..2 nodes: every node answers any subset of {before(valued), contested v1(null)|v2(valued)|v3(null), second series v1(null)|v2(valued), after(null)} = 48 answers per node incl. the empty one, field type {int,float,str}; 3 nodes: {contested absent|v1|v2} x {second absent|v1|v2} x {before absent|present}, field type int; x asc/desc x batch {1,8} x {proto-bytes, typed} frames")
 	r.Set("coordinator_merges", n)
 	r.Set("coordinator_merges_with_replicas_at_different_versions", contested)
 	r.Set("coordinator_merge_failures", bad)
 	fmt.Printf("C15: coordinator merges (row MergeGroupMIterators vs vectorized mergeDistributedRows): %d (%d with replicas at different versions), failures %d\n", n, contested, bad)
+}
+
+// coordinatorMergeNullable: the same differential over the nullable-field universe (round 2). A data node whose rows
+// all carry a NULL field ships the field as a FieldValue passthrough column on the typed wire while a node with values
+// ships a typed column: the coordinator has to reconcile frame schemas that differ per node, in every arrival order.
+func coordinatorMergeNullable(r *ev.Run) (n, bad, diverging, typedFirst int) {
+	type alpha struct{ c, s, b, a []int }
+	full := alpha{[]int{0, 1, 2, 3}, []int{0, 1, 2}, []int{0, 1}, []int{0, 1}}
+	small := alpha{[]int{0, 1, 2}, []int{0, 1, 2}, []int{0, 1}, []int{0}}
+	var assigns func(al alpha, k int, cur [][]int, f func([][]int))
+	assigns = func(al alpha, k int, cur [][]int, f func([][]int)) {
+		if len(cur) == k {
+			f(cur)
+			return
+		}
+		for _, c := range al.c {
+			for _, s := range al.s {
+				for _, b := range al.b {
+					for _, a := range al.a {
+						assigns(al, k, append(append([][]int(nil), cur...), []int{c, s, b, a}), f)
+					}
+				}
+			}
+		}
+	}
+	// wire-type facts of one assignment (typed frames): 0 = node answers nothing, 1 = all field cells NULL, 2 = has a value
+	nodeKind := func(a []int) int {
+		rows, valued := 0, false
+		if a[2] > 0 {
+			rows, valued = rows+1, true
+		}
+		if a[0] > 0 {
+			rows++
+			valued = valued || !mergeFieldNull(7, 2000, int64(a[0]))
+		}
+		if a[1] > 0 {
+			rows++
+			valued = valued || !mergeFieldNull(8, 2000, int64(a[1]))
+		}
+		if a[3] > 0 {
+			rows++
+		}
+		switch {
+		case rows == 0:
+			return 0
+		case valued:
+			return 2
+		}
+		return 1
+	}
+	for k := 1; k <= 3; k++ {
+		al, ftypes := full, []string{"int", "float", "str"}
+		if k == 3 {
+			al, ftypes = small, []string{"int"}
+		}
+		assigns(al, k, nil, func(nodes [][]int) {
+			hasNull, hasVal, first, tf := false, false, 0, false
+			for _, a := range nodes {
+				switch nodeKind(a) {
+				case 1:
+					hasNull = true
+					if first == 2 {
+						tf = true
+					}
+					if first == 0 {
+						first = 1
+					}
+				case 2:
+					hasVal = true
+					if first == 0 {
+						first = 2
+					}
+				}
+			}
+			for _, ft := range ftypes {
+				for _, variant := range []string{"passthrough", "typed"} {
+					for _, desc := range []bool{false, true} {
+						for _, batch := range []int{1, 8} {
+							mc := mergeCase{Variant: variant, Nodes: nodes, Batch: batch, Desc: desc, Merge: true, FieldType: ft}
+							n++
+							if variant == "typed" && hasNull && hasVal {
+								diverging++
+								if tf {
+									typedFirst++
+								}
+							}
+							msg, _ := mergeOne(mc)
+							if msg != "" {
+								bad++
+								r.Violation(fmt.Sprintf("coordinator merge (%s frames, desc=%v, nullable %s field): %s", variant, desc, ft, msgClass(msg)), map[string]any{"merge": mc, "message": msg})
+							}
+							if n%30000 == 1 {
+								r.Sample(map[string]any{"merge": mc})
+							}
+						}
+					}
+				}
+			}
+		})
+	}
+	fmt.Printf("C15: coordinator merges with a nullable field: %d (%d with per-node field wire types that differ, %d of them typed frame first), failures %d\n", n, diverging, typedFirst, bad)
+	return
 }
